@@ -147,11 +147,7 @@ Example C10_ex_reachable :
 Proof.
   unfold reachable. rewrite C10_source_withdraws.
   eexists. split.
-  - eapply reach_step; [eapply reach_step; [eapply reach_step; [eapply reach_step; [eapply reach_step; [apply reach_init|]|]|]|]|].
-    + instantiate (1 := AStart 0 1 0). reflexivity.
-    + instantiate (1 := AStart 1 2 1). reflexivity.
-    + instantiate (1 := ASendOk 0). reflexivity.
-    + instantiate (1 := ASendOk 1). reflexivity.
-    + instantiate (1 := AWaitToken 0). reflexivity.
+  - eapply run_reach with (tr := [AStart 0 1 0; AStart 1 2 1; ASendOk 0; ASendOk 1; AWaitToken 0]); [apply reach_init|].
+    vm_compute. reflexivity.
   - repeat split.
 Qed.
